@@ -240,6 +240,8 @@ func runC51(c *Ctx) {
 	c.Floor(r5, 2)
 	checkPositionSpaces(c)
 	c.Floor("position-spaces", 8)
+	checkDateFieldWidth(c, "date-field-width")
+	c.Floor("date-field-width", 2)
 }
 
 func usedInPkgFile(p *Prog, pk interface{ }, obj types.Object, base string) bool {
